@@ -761,6 +761,7 @@ impl Engine for TreeEnumEngine {
                     }
                 }
                 for left in 0..gs.len() {
+                    crate::campaign::touch();
                     for hs in &shapes {
                         for hmask in 0..(1u32 << hs.len()) {
                             let nodes: Vec<TNode> = hs
